@@ -254,6 +254,9 @@ func genSimpleOp(r *Rng, hot bool, uid *byte, sizeOf func(uint64) uint64) *sOp {
 			if o.Off < BlockSize {
 				o.Count = uint32(1 + r.U64()%(BlockSize-o.Off))
 			}
+			if r.Intn(6) == 0 {
+				o.Off, o.Count = 0, BlockSize // the whole file in one request
+			}
 		}
 		n := o.Count
 		if !hot && r.Intn(12) == 0 {
